@@ -26,6 +26,22 @@ theorem dynamic_sets_pinned :
 
 /-! ## lexer -/
 
+/-- under the current tables the model's lexicon is the pinned one -/
+theorem active_rules_idx : Lexer.resolveIdx Pyxv.Gen.lexerRules = some (List.range 26) := by decide +kernel
+
+theorem active_rules_pinned : Lexer.activeRules = some Lexer.pinnedRules := by
+  unfold Lexer.activeRules Lexer.resolve
+  rw [active_rules_idx]
+  rfl
+
+/-- the classification the oracle uses (pinned lexicon and sets) is `default_is_dynamic` of the
+    current source as modelled -/
+theorem classification_is_pinned (dflt ty : Str) :
+    Lexer.defaultIsDynamic dflt ty = some (Lexer.dynamicPinned dflt ty) := by
+  unfold Lexer.defaultIsDynamic Lexer.dynamicWith Lexer.dynamicPinned
+  rw [active_rules_pinned, dynamic_sets_pinned.1, dynamic_sets_pinned.2]
+  rfl
+
 /-- `re.Scanner.scan` loses nothing: token values followed by the remainder are the input, for every
     rule table and every input.  (This is what makes the F11 repair sound: positions can be derived
     from the lengths of the values.) -/
